@@ -21,7 +21,7 @@ func c19Script(dir, name, log string, mode os.FileMode, body string) string {
 		body = "exit 0"
 	}
 	os.WriteFile(p, []byte("#!/bin/sh\necho \"$(basename \"$0\")|$*|$#|$WHAWTY_AUTH_STORE\" >> "+log+"\n"+body+"\n"), 0600) //nolint:errcheck
-	os.Chmod(p, mode)                                                                                                                 //nolint:errcheck
+	os.Chmod(p, mode)                                                                                                       //nolint:errcheck
 	return p
 }
 
@@ -110,7 +110,7 @@ func c19Deaf(R *vr.Result, rng *rand.Rand) {
 		case "missing":
 			os.Rename(dir, dir+".away") //nolint:errcheck
 		case "not-a-directory":
-			os.Rename(dir, dir+".away")                 //nolint:errcheck
+			os.Rename(dir, dir+".away")             //nolint:errcheck
 			os.WriteFile(dir, []byte("file"), 0644) //nolint:errcheck
 		}
 		if !c19Wait(20*L+3*time.Second, func(ev []verifEvt) bool {
@@ -130,7 +130,7 @@ func c19Deaf(R *vr.Result, rng *rand.Rand) {
 		case "world-writable":
 			os.Chmod(dir, 0755) //nolint:errcheck
 		default:
-			os.Remove(dir)                  //nolint:errcheck
+			os.Remove(dir)              //nolint:errcheck
 			os.Rename(dir+".away", dir) //nolint:errcheck
 		}
 		okAll := true
@@ -317,8 +317,8 @@ func c19Kind(n string) string {
 
 // ---------------------------------------------------------------- (B)
 type c19Pattern struct {
-	Name  string
-	Gaps  []float64 // gap before each send, in units of the rate limit
+	Name   string
+	Gaps   []float64 // gap before each send, in units of the rate limit
 	During bool      // second send while the first round is being started (many hooks)
 }
 
@@ -616,8 +616,8 @@ func c19Wiring(R *vr.Result, rng *rand.Rand) {
 		{"setadmin-nonexistent", func() error { return iface.SetAdmin("ghost", true) }, false},
 		{"authenticate", func() error { _, _, _, e := iface.Authenticate("bob", "pw2"); return e }, false},
 		{"authenticate-wrong", func() error { iface.Authenticate("bob", "nope"); return fmt.Errorf("ro") }, false}, //nolint:errcheck
-		{"list", func() error { iface.List(); return fmt.Errorf("ro") }, false},                                  //nolint:errcheck
-		{"check", func() error { iface.Check(); return fmt.Errorf("ro") }, false},                                //nolint:errcheck
+		{"list", func() error { iface.List(); return fmt.Errorf("ro") }, false},                                    //nolint:errcheck
+		{"check", func() error { iface.Check(); return fmt.Errorf("ro") }, false},                                  //nolint:errcheck
 		{"remove-existing", func() error { return iface.Remove("bob") }, true},
 		{"remove-nonexistent", func() error { return iface.Remove("bob") }, true},
 		{"init-nonempty", func() error { return iface.Init("root2", "pw") }, false},
